@@ -20,6 +20,13 @@ Round 5: D2-outcome-from-this-message / D4-job-values-from-this-message (per-mes
    from the binding of that message to its use, so nothing of an earlier job is carried over);
    D4-default-only-for-none on the enqueue and transport hops (a stand-in for data / context only where it is None);
    the worker's status publishes are collected through the call graph of worker_loop, whatever module they live in.
+Round 6: D4-payload-handed-on-intact on the same hops and on the way back (result -> status publish): a payload field
+   travels as the object itself or as a copy that keeps its class and all of its state.  A copy method is resolved in the
+   class hierarchy of the field's declared type (annotation at the hop / of the Payload constructor) and checked for every
+   class that runs it: a reconstruction `type(self)(..)` must read every attribute the constructors of that class and of
+   the classes down to the declared root store (interface condition between a base-class copy and the subclasses that
+   inherit it); a fixed class, a conversion or a wrapper is not the payload.  Provenance: `typing.cast(T, x)` is x and the
+   module a function is looked up in (`copy.deepcopy(x)`) is not per-job state.
 
 All function bodies are analysed in their normal form (sa/normal.py: private helpers inlined,
 named sub-expressions substituted), and the constructs are found by role (what they read /
@@ -421,6 +428,22 @@ def _is_empty_dict(v: Optional[ast.AST]) -> bool:
     return (isinstance(v, ast.Dict) and not v.keys) or (isinstance(v, ast.Call) and isinstance(v.func, ast.Name) and v.func.id == "dict" and not v.args and not v.keywords)
 
 
+def _strip_cast(e: ast.AST) -> ast.AST:
+    """`typing.cast(T, x)` is `x`."""
+    while isinstance(e, ast.Call) and (call_name(e) or "").rsplit(".", 1)[-1] == "cast" and len(e.args) == 2 and not e.keywords:
+        e = e.args[1]
+    return e
+
+
+def module_aliases(mod) -> Set[str]:
+    """Names a module binds to modules at its top level (`import x`, `import x.y as z`)."""
+    out: Set[str] = set()
+    for st in mod.tree.body:
+        if isinstance(st, ast.Import):
+            out |= {(a.asname or a.name.split(".")[0]) for a in st.names}
+    return out
+
+
 class Leaf:
     """One value a local can hold at a use: *kind* is 'message' (computed from this message), 'fresh' (a
     constant / an object built on the spot from nothing that outlives the job), 'outside' (bound outside the job
@@ -442,9 +465,19 @@ class Provenance:
         self.meta_keys: List[object] = []
         self.aliases = metadata_aliases(g.func)
 
+    pure_names: Set[str] = set()  # module-level `import x [as y]` aliases of the analysed module: a module is not per-job state
+
+    def _is_module_alias(self, nm: str) -> bool:
+        if nm not in self.pure_names:
+            return False
+        fn = self.g.func
+        params = {a.arg for a in fn.args.posonlyargs + fn.args.args + fn.args.kwonlyargs} | {a.arg for a in (fn.args.vararg, fn.args.kwarg) if a is not None}  # type: ignore[attr-defined]
+        return nm not in params and not any(isinstance(n, ast.Name) and n.id == nm and isinstance(n.ctx, (ast.Store, ast.Del)) for n in ast.walk(fn))
+
     def alts(self, e: ast.AST, at: int, conds: tuple = (), site: Optional[int] = None, depth: int = 0) -> List[Leaf]:
         if depth > 8:
             return [Leaf(e, at, site, conds, "unknown")]
+        e = _strip_cast(e)
         if isinstance(e, ast.Name) and e.id != self.msg:
             defs = reaching_defs(self.g, e.id, at)
             if not defs:
@@ -480,6 +513,8 @@ class Provenance:
         reads = any(isinstance(x, ast.Name) and x.id == self.msg for x in ast.walk(e))
         self.meta_keys.extend(k for k, _n in _reads_metadata(e, self.msg, self.aliases))
         for nm in sorted(_free_names(e, self.msg)):
+            if self._is_module_alias(nm):
+                continue  # `copy.deepcopy(x)`, `np.asarray(x)`: the module a function is looked up in
             sub = self.alts(ast.Name(id=nm, ctx=ast.Load()), at, depth=depth + 1)
             if any(l.kind in ("outside", "unknown") for l in sub):
                 return "outside" if any(l.kind == "outside" for l in sub) else "unknown"
@@ -553,6 +588,7 @@ class ParamProvenance(Provenance):
         return at in self.g.reach([self.g.entry], blocked=dn, skip_labels={EXC, BASE}) or at == self.g.entry
 
     def alts(self, e: ast.AST, at: int, conds: tuple = (), site: Optional[int] = None, depth: int = 0) -> List[Leaf]:
+        e = _strip_cast(e)
         if isinstance(e, ast.Name) and e.id in self.params:
             out: List[Leaf] = []
             if self.entry_value_reaches(e.id, at):
@@ -1298,6 +1334,7 @@ def run(repo: Repo, R: Report) -> None:
     loop, msg, bind_stmts = jobs[0]
     g = CFG(wl, may_raise=job_may_raise(repo, wmod, wl, loop))
     prov = Provenance(g, loop, msg)
+    prov.pure_names = module_aliases(wmod)
     # job id variable, by role: the local the status channel of this job is named after (in a publish of the job
     # body or handed to a helper that publishes), every value of which is read from this message's metadata
     # under one key or is a constant standing in for a missing id
@@ -1808,7 +1845,32 @@ def run(repo: Repo, R: Report) -> None:
     # ------------------------------------------------------------------ D4 a default stands in only for None
     # (the worker-side instance - Payload(msg.data, msg.context) - is recorded with D4-correlation above)
     r_dflt = R.rule("C15-D4-default-only-for-none", "on every hop between the caller's enqueue arguments and the pipeline call in the worker (enqueue -> queued tuple, transport publish -> Message, message -> Payload) a default object stands in for a payload field (data, context) only where that field is None: a truthiness test (`x or Default()`, `if not x:`) also replaces a falsy-but-real input - an empty data collection, a context collection with global keys and no items - and the job no longer runs on its own payload", 2)
+    r_intact = R.rule("C15-D4-payload-handed-on-intact", "on every hop between the caller's enqueue arguments and the pipeline call in the worker (enqueue -> queued tuple, transport publish -> Message, message -> Payload) a payload field (data, context) travels as the object itself or as a copy that keeps its class and all of its state: a conversion, a wrapper, or a copy method that rebuilds the object through its constructor from some of its attributes - inherited by a subclass that stores more (a context collection keeps its items in a list of its own) - hands the job something else than its payload, and the result differs from the direct run; likewise on the way back the status publish carries the data / context of the object the pipeline returned, not a copy shown to drop part of it", 4)
+    payload_cls: List[Tuple[object, ast.ClassDef]] = []
+    for c in calls_in(wl):
+        if (call_name(c) or "").rsplit(".", 1)[-1] == "Payload" and isinstance(c.func, (ast.Name, ast.Attribute)):
+            r = repo.resolve_name(wmod, c.func, c)
+            if r is not None and isinstance(r[1], ast.ClassDef) and not payload_cls:
+                payload_cls.append((r[0], r[1]))
+
+    def field_roots(fname: str, annotated: List[Tuple[object, Optional[ast.AST], ast.AST]]) -> List[Tuple[object, ast.ClassDef]]:
+        """The declared classes of a payload field: the annotation at this hop and that of the constructor of the
+        object the worker hands to the pipeline."""
+        out: List[Tuple[object, ast.ClassDef]] = []
+        srcs = list(annotated)
+        for pm, pc in payload_cls:
+            init = repo.method(pm, pc, "__init__")
+            if init is not None:
+                srcs += [(init[0], a.annotation, init[1]) for a in init[1].args.args + init[1].args.kwonlyargs if a.arg == fname]  # type: ignore[attr-defined]
+            srcs += [(pm, st.annotation, pc) for st in pc.body if isinstance(st, ast.AnnAssign) and isinstance(st.target, ast.Name) and st.target.id == fname]
+        for m, ann, ctx in srcs:
+            for mc in annotation_classes(repo, m, ann, ctx):
+                if not any(mc[1] is x for _m, x in out):
+                    out.append(mc)
+        return out
+
     eprov = ParamProvenance(ge, enq, set(eparams) | {a.arg for a in enq.args.kwonlyargs})  # type: ignore[attr-defined]
+    eprov.pure_names = module_aliases(repo.module(erel))
     t_at = _node_of(ge, tup)
     if t_at is None:
         raise AnalysisError("enqueue: the queued tuple is not evaluated at a CFG node")
@@ -1820,6 +1882,10 @@ def run(repo: Repo, R: Report) -> None:
                 "a falsy-but-real input - a context collection with global keys and no items, an empty data collection - is swapped for a default object before the job is even published, "
                 "so the job does not run on its own payload and its Future completes with a result that differs from the direct run",
                 getattr(bad_l.expr, "lineno", put_call.lineno) if bad_l is not None else put_call.lineno)
+        lost = handed_on_intact(repo, eprov, eprov.alts(el, t_at), field_roots(pname, [(repo.module(erel), a.annotation, enq) for a in enq.args.args + enq.args.kwonlyargs if a.arg == pname]))  # type: ignore[attr-defined]
+        R.check(lost is None, r_intact, erel, eqn, f"queued {pname} is the caller's `{pname}` object (or a copy that keeps its class and state)",
+                f"`{norm(lost[0])[:70] if lost else ''}` is queued in place of the caller's `{pname}`: {lost[1] if lost else ''} - the job does not run on its own payload and its Future completes with a result that differs from the direct run",
+                getattr(lost[0], "lineno", put_call.lineno) if lost else put_call.lineno)
     # transport hop: the Message a publish files carries the data / context it was called with
     tmod_ = repo.module(T)
     for tqn, tnode in sorted(tmod_.defs.items()):
@@ -1829,6 +1895,7 @@ def run(repo: Repo, R: Report) -> None:
         pparams = {a.arg for a in pf.args.posonlyargs + pf.args.args + pf.args.kwonlyargs if a.arg not in ("self", "cls")}  # type: ignore[attr-defined]
         gp = CFG(pf, may_raise=lambda part: set())
         pprov = ParamProvenance(gp, pf, pparams)
+        pprov.pure_names = module_aliases(tmod_)
         for c in calls_in(pf):
             r = repo.resolve_name(tmod_, c.func, c) if isinstance(c.func, (ast.Name, ast.Attribute)) else None
             if r is None or not isinstance(r[1], ast.ClassDef):
@@ -1847,6 +1914,10 @@ def run(repo: Repo, R: Report) -> None:
                         f"`{norm(bad_l.expr)[:70] if bad_l is not None else ''}` is filed in place of the published {fname} where it is not known to be None (e.g. whenever it is falsy): "
                         "an empty data collection / a context collection without items is swapped for a default object in transit, so the job does not run on the payload that was queued",
                         getattr(bad_l.expr, "lineno", c.lineno) if bad_l is not None else c.lineno)
+                lost = handed_on_intact(repo, pprov, pprov.alts(bound[fname], at_c), field_roots(fname, [(r[0], st.annotation, r[1]) for st in r[1].body if isinstance(st, ast.AnnAssign) and isinstance(st.target, ast.Name) and st.target.id == fname]))
+                R.check(lost is None, r_intact, T, tqn, f"{r[1].name}.{fname} is publish's `{'/'.join(sorted(own))}` object (or a copy that keeps its class and state)",
+                        f"`{norm(lost[0])[:70] if lost else ''}` is filed in place of the published {fname}: {lost[1] if lost else ''} - the job does not run on the payload that was queued",
+                        getattr(lost[0], "lineno", c.lineno) if lost else c.lineno)
 
     # ------------------------------------------------------------------ D4 (remaining hops)
     # the function that broadcasts a dequeued job: the tuple taken from the queue is unpacked and published on
@@ -1915,6 +1986,21 @@ def run(repo: Repo, R: Report) -> None:
                         f"a status message is published whose context does not carry this job's id under {ctx_key!r}: the master cannot find the pending future", c.lineno)
                 if writes and cname:
                     _annotation_reaches_publish(R, r_corr, fn, c, cname, ctx_key, jv, writes, wfunc_rel.get(id(fn), W))
+    # ... and what the worker publishes as the job's outcome is the data / context of the object the pipeline returned,
+    # not a lossy copy of them (the way back: result -> status message -> Future)
+    for n in g.nodes:
+        if n.ast is None or n.kind != "stmt" or id(n.ast) not in prov.inside:
+            continue
+        for c in calls_in(n.ast):
+            if not is_status_publish(c, None, wl):
+                continue
+            for fname, val in (("data", kwarg(c, "data") or (c.args[1] if len(c.args) > 1 else None)), ("context", _publish_context(c))):
+                if val is None or (isinstance(val, ast.Constant) and val.value is None):
+                    continue
+                lost = handed_on_intact(repo, prov, prov.alts(val, n.id), field_roots(fname, []), result_field=fname)
+                R.check(lost is None, r_intact, wrel, wqn, f"published {fname} `{norm(val)[:30]}` is the result's `{fname}` object (or a copy that keeps its class and state)",
+                        f"`{norm(lost[0])[:70] if lost else ''}` is published in place of the {fname} the pipeline returned: {lost[1] if lost else ''} - the Future completes with something else than the job's result",
+                        getattr(lost[0], "lineno", c.lineno) if lost else c.lineno)
     # payload of the job is built from this message: every definition of the two payload values that can reach
     # the call lies inside the job body and is computed from this message, or is a fresh default object that is
     # chosen only where the message's own field is None
@@ -1940,6 +2026,11 @@ def run(repo: Repo, R: Report) -> None:
                     R.check(bad_l is None, r_corr, wrel, wqn, f"Payload argument `{norm(a)[:30]}` is the message's own field (a default only for None)",
                             f"`{norm(bad_l.expr)[:70] if bad_l is not None else ''}` replaces the job's input where the message's field is not known to be None (e.g. whenever it is falsy): an empty data collection (len 0) or an empty context collection is swapped for a default object, so the job does not run on the payload that was queued",
                             getattr(bad_l.expr, "lineno", c.lineno) if bad_l is not None else c.lineno)
+                    fname = next(iter(fields)) if len(fields) == 1 else ""
+                    lost = handed_on_intact(repo, prov, ls, field_roots(fname, []))
+                    R.check(lost is None, r_intact, wrel, wqn, f"Payload argument `{norm(a)[:30]}` is the message's `{fname}` object (or a copy that keeps its class and state)",
+                            f"`{norm(lost[0])[:70] if lost else ''}` is handed to the pipeline in place of the message's {fname or 'field'}: {lost[1] if lost else ''} - the job does not run on the payload that was queued",
+                            getattr(lost[0], "lineno", c.lineno) if lost else c.lineno)
             if call_attr(c) == "Pipeline" and (c.args or c.keywords):
                 a = c.args[0] if c.args else c.keywords[0].value
                 prov.meta_keys = []
@@ -2805,3 +2896,223 @@ def _provably_not_none(repo: Repo, mod, fn: ast.AST, val: ast.AST) -> bool:
 
     leaves = _value_leaves(repo, mod, fn, val)
     return leaves is not None and all(not_none(v) for v in leaves)
+
+
+# ---------------------------------------------------------------------------
+# D4 a payload field is handed on as the object itself, or as a copy that keeps its class and all of its state
+# ---------------------------------------------------------------------------
+_GENERIC_COPIES = {"copy": "__copy__", "deepcopy": "__deepcopy__"}
+_ALL_STATE = "*"
+
+
+def annotation_classes(repo: Repo, mod, ann: Optional[ast.AST], ctx: Optional[ast.AST]) -> List[Tuple[object, ast.ClassDef]]:
+    """The classes of the package an annotation mentions (`Optional[X]`, `X | None`, `"X"`, `Union[X, Y]`)."""
+    out: List[Tuple[object, ast.ClassDef]] = []
+
+    def visit(a: Optional[ast.AST], depth: int = 0) -> None:
+        if a is None or depth > 3:
+            return
+        for n in ast.walk(a):
+            if isinstance(n, ast.Constant) and isinstance(n.value, str):
+                try:
+                    visit(ast.parse(n.value, mode="eval").body, depth + 1)
+                except SyntaxError:
+                    pass
+            elif isinstance(n, (ast.Name, ast.Attribute)):
+                try:
+                    r = repo.resolve_name(mod, n, ctx)
+                except Exception:
+                    r = None
+                if r is not None and isinstance(r[1], ast.ClassDef) and not any(r[1] is c for _m, c in out):
+                    out.append((r[0], r[1]))
+
+    visit(ann)
+    return out
+
+
+def _self_of(fn: ast.AST) -> Optional[str]:
+    a = fn.args.posonlyargs + fn.args.args  # type: ignore[attr-defined]
+    return a[0].arg if a else None
+
+
+def _state_stored(fn: ast.AST) -> Set[str]:
+    s = _self_of(fn)
+    return {n.attr for n in ast.walk(fn) if isinstance(n, ast.Attribute) and isinstance(n.ctx, ast.Store) and isinstance(n.value, ast.Name) and n.value.id == s}
+
+
+def _state_read(fn: ast.AST) -> Set[str]:
+    """Instance attributes *fn* reads from its receiver ('*': all of them at once - `self.__dict__`, `vars(self)`)."""
+    s = _self_of(fn)
+    out: Set[str] = set()
+    for n in ast.walk(fn):
+        if isinstance(n, ast.Attribute) and isinstance(n.ctx, ast.Load) and isinstance(n.value, ast.Name) and n.value.id == s:
+            out.add(_ALL_STATE if n.attr in ("__dict__", "__getstate__", "__reduce_ex__", "__reduce__") else n.attr)
+        elif isinstance(n, ast.Call) and isinstance(n.func, ast.Name) and n.args and isinstance(n.args[0], ast.Name) and n.args[0].id == s:
+            if n.func.id == "vars":
+                out.add(_ALL_STATE)
+            elif n.func.id == "getattr" and len(n.args) > 1 and isinstance(n.args[1], ast.Constant):
+                out.add(str(n.args[1].value))
+    return out
+
+
+def _defining(repo: Repo, mod, cls: ast.ClassDef, name: str):
+    """(module, class, function) of the implementation of method *name* an instance of *cls* runs; None when no
+    class of the package in its MRO defines it."""
+    for m, c in repo.mro(mod, cls):
+        for st in c.body:
+            if isinstance(st, FuncNode) and st.name == name:
+                return m, c, st
+    return None
+
+
+def _normal_method(repo: Repo, mod, fn: ast.AST) -> ast.AST:
+    qn = next((q for q, nd in mod.defs.items() if nd is fn), None)
+    if qn is None:
+        return fn
+    try:
+        return nfunc(repo, mod.rel, qn, copyprop="all")
+    except Exception:
+        return fn
+
+
+def rebuild_loses(repo: Repo, km, K: ast.ClassDef, impl: ast.AST, sm, S: ast.ClassDef, hierarchy: Optional[Set[int]] = None) -> Optional[str]:
+    """Why the object *impl* (a method defined in class K, run by an instance of class S, which inherits it) returns
+    is not a copy of its receiver: it is an instance of a fixed other class, or it is rebuilt through the constructor
+    from some of the receiver's attributes and an attribute that S, a class between S and K, or a base of K that
+    belongs to the payload's declared *hierarchy* stores in its constructor is never read on the way (what the
+    framework bases above the declared class keep - a logger - is not the job's input).
+    None: the copy keeps class and state, or the shape is not understood."""
+    nf = _normal_method(repo, km, impl)
+    s = _self_of(nf)
+    if s is None:
+        return None
+    rebuilt: Optional[ast.Call] = None
+    for r in walk_no_nested(nf):
+        if not (isinstance(r, ast.Return) and r.value is not None):
+            continue
+        v = _deref(nf, r.value)
+        if isinstance(v, ast.Name) and v.id == s:
+            continue  # the object itself
+        if not isinstance(v, ast.Call):
+            return None
+        f = v.func
+        last = (call_name(v) or "").rsplit(".", 1)[-1]
+        if last in _GENERIC_COPIES and v.args and isinstance(v.args[0], ast.Name) and v.args[0].id == s:
+            continue  # copy.copy(self) / copy.deepcopy(self): class and instance dictionary are kept
+        dynamic = (isinstance(f, ast.Call) and isinstance(f.func, ast.Name) and f.func.id == "type" and len(f.args) == 1 and isinstance(f.args[0], ast.Name) and f.args[0].id == s) \
+            or (isinstance(f, ast.Attribute) and f.attr == "__class__" and isinstance(f.value, ast.Name) and f.value.id == s)
+        if not dynamic:
+            try:
+                tgt = repo.resolve_name(km, f, v) if isinstance(f, (ast.Name, ast.Attribute)) else None
+            except Exception:
+                tgt = None
+            if tgt is None or not isinstance(tgt[1], ast.ClassDef):
+                return None  # a helper / a delegate: not understood
+            if tgt[1] is not S:
+                return f"`{norm(v)[:60]}` builds a {tgt[1].name} whatever the class of the object: a {S.name} (which inherits {K.name}.{impl.name}) comes back as a {tgt[1].name}"  # type: ignore[attr-defined]
+        rebuilt = v
+    if rebuilt is None:
+        return None
+    reads = set(_state_read(nf))
+    for c in calls_in(nf):  # what the receiver's own methods called on the way read (one level)
+        if isinstance(c.func, ast.Attribute) and isinstance(c.func.value, ast.Name) and c.func.value.id == s:
+            d = _defining(repo, sm, S, c.func.attr)
+            if d is not None:
+                reads |= _state_read(d[2])
+    if _ALL_STATE in reads:
+        return None
+    below_k = True
+    for m, c in repo.mro(sm, S):
+        if not below_k and id(c) not in (hierarchy or set()):
+            break
+        for st in c.body:
+            if isinstance(st, FuncNode) and st.name in ("__init__", "__post_init__"):
+                missing = sorted(_state_stored(st) - reads)
+                if missing:
+                    how = f"{S.name} inherits {K.name}.{impl.name}" if c is not K or S is not K else f"{K.name}.{impl.name}"  # type: ignore[attr-defined]
+                    return (f"{K.name}.{impl.name} rebuilds the object as `{norm(rebuilt)[:70]}` and never reads `{missing[0]}`, which {c.name}.{st.name} stores "  # type: ignore[attr-defined]
+                            f"({how}): what a {S.name} keeps there is dropped from the copy")
+        if c is K:
+            below_k = False
+    return None
+
+
+def copy_method_loses(repo: Repo, roots: List[Tuple[object, ast.ClassDef]], meth: str) -> Tuple[bool, Optional[str]]:
+    """(some class of the hierarchy under *roots* defines *meth*, why the copy it returns is not the object - for the
+    first class of the hierarchy for which that can be shown)."""
+    classes: List[Tuple[object, ast.ClassDef]] = []
+    for m, c in roots:
+        for mc in [(m, c)] + list(repo.subclasses(c)):
+            if not any(mc[1] is x for _m, x in classes):
+                classes.append(mc)
+    found = False
+    for sm, S in classes:
+        d = _defining(repo, sm, S, meth)
+        if d is None:
+            continue
+        found = True
+        why = rebuild_loses(repo, d[0], d[1], d[2], sm, S, {id(x) for _m, x in classes})
+        if why is not None:
+            return True, why
+    return found, None
+
+
+def handed_on_intact(repo: Repo, prov: Provenance, leaves: List[Leaf], roots: List[Tuple[object, ast.ClassDef]], result_field: Optional[str] = None) -> Optional[Tuple[ast.AST, str]]:
+    """(expression, why) for the first own value among *leaves* (the values a payload field can have where it is handed
+    on) that is not the incoming field itself: a method of the field's class hierarchy that rebuilds the object and
+    drops part of it, a conversion / wrapper / slice, or a copy through a method no class of the hierarchy defines.
+    With *result_field* the leaves are what a status publish carries: the field is `<result>.<result_field>` of whatever
+    object the job produced, and only a copy that is shown to drop state is reported (anything else a worker may
+    publish - None and a fresh context for a failure - is not a transformation of the result)."""
+    strict = result_field is None
+
+    def the_field(e: ast.AST) -> bool:
+        if result_field is not None:
+            return isinstance(e, ast.Attribute) and e.attr == result_field and not (isinstance(e.value, ast.Name) and e.value.id == prov.msg)
+        if isinstance(prov, ParamProvenance):
+            return isinstance(e, ast.Name) and e.id in prov.params
+        if isinstance(e, ast.Name):
+            return e.id == prov.msg  # the message unpacked as a tuple
+        if isinstance(e, ast.Attribute):
+            return isinstance(e.value, ast.Name) and e.value.id == prov.msg
+        if isinstance(e, ast.Subscript):
+            return isinstance(e.value, ast.Name) and e.value.id == prov.msg and isinstance(e.slice, ast.Constant)
+        return isinstance(e, ast.Call) and isinstance(e.func, ast.Name) and e.func.id == "getattr" and len(e.args) >= 2 and isinstance(e.args[0], ast.Name) \
+            and e.args[0].id == prov.msg and isinstance(e.args[1], ast.Constant)
+
+    def verdict(e: ast.AST, at: int, depth: int = 0) -> Tuple[str, Optional[Tuple[ast.AST, str]]]:
+        """('same', None): the field or a copy that keeps it; ('lossy', ..): a copy shown to drop state;
+        ('other', ..): something computed from it / not decided."""
+        e = _strip_cast(e)
+        if the_field(e):
+            return "same", None
+        if depth > 3:
+            return "other", (e, "not followed")
+
+        def own(x: ast.AST) -> bool:
+            ls = prov.alts(x, at)
+            return bool(ls) and all((l.kind == "message" or not strict) and verdict(l.expr, l.at, depth + 1)[0] == "same" for l in ls)
+
+        if isinstance(e, ast.Call):
+            meth = None
+            last = (call_name(e) or "").rsplit(".", 1)[-1]
+            if isinstance(e.func, ast.Attribute) and own(e.func.value):
+                meth = e.func.attr
+            elif last in _GENERIC_COPIES and len(e.args) >= 1 and own(e.args[0]):
+                meth = _GENERIC_COPIES[last]
+            if meth is not None:
+                found, why = copy_method_loses(repo, roots, meth)
+                if why is not None:
+                    return "lossy", (e, why)
+                if found or meth in _GENERIC_COPIES.values():
+                    return "same", None
+                return "other", (e, f"no class under {'/'.join(c.name for _m, c in roots) or 'the declared type'} defines `{meth}`: the value handed on is not shown to be the job's own input")
+        return "other", (e, "the value handed on is computed from the job's input (a conversion, a wrapper, a part of it), it is not that input")
+
+    for l in leaves:
+        if strict and l.kind != "message":
+            continue
+        k, v = verdict(l.expr, l.at)
+        if k == "lossy" or (strict and k == "other"):
+            return v
+    return None
